@@ -2,7 +2,9 @@
 """Copy confirmed seeded changes from the scratch worktrees into /verif/seeded/<id>/ (patch.diff, demo files, meta.json)."""
 import json, shutil, sys
 from pathlib import Path
-out = Path('/verif/seeded')
+out = Path("/verif/seeded")
+import os
+BASE = os.environ.get("SEED_BASE", "9c75944 (/repo HEAD with the fix: commits)")
 out.mkdir(exist_ok=True)
 for pid in sys.argv[1:]:
     for ch in sorted(Path(f'/tmp/wt/{pid}/_seed').glob('change*')):
@@ -32,7 +34,7 @@ for pid in sys.argv[1:]:
             "summary": m.get("summary"),
             "why_it_breaks": m.get("why_it_breaks"),
             "needs_to_manifest": m.get("needs_to_manifest"),
-            "base_commit": m.get("base_commit_override") or "9c75944 (/repo HEAD with the fix: commits)",
+            "base_commit": m.get("base_commit_override") or BASE,
             "demo_cmd_in_worktree": m.get("demo_cmd"),
             "confirmed_by_me": {
                 "what_i_ran": "python3 /verif/confirm_seeds.py " + pid + "  (scratch worktree /tmp/wt/" + pid + ": demo on clean tree, git apply patch.diff, demo again, full pytest suite with --junitxml compared with BASELINE.stable_pass, git checkout)",
